@@ -519,6 +519,13 @@ impl rustc_driver::Callbacks for Cb {
                         let path = tcx.def_path_str(did);
                         let body = tcx.mir_for_ctfe(did);
                         cx.body(&mut f, &path, "const", did, body, "");
+                        // nested slices of a literal table are promoted constants of the item
+                        let promoted = tcx.promoted_mir(did);
+                        for (pi, pb) in promoted.iter_enumerated() {
+                            let ppath = format!("{}::{{promoted#{}}}", path, pi.index());
+                            let pextra = format!(",\"promoted_of\":{},\"promoted_index\":{}", q(&path), pi.index());
+                            cx.body(&mut f, &ppath, "promoted", did, pb, &pextra);
+                        }
                     }
                     continue;
                 }
@@ -528,6 +535,12 @@ impl rustc_driver::Callbacks for Cb {
                         let path = tcx.def_path_str(did);
                         let body = tcx.mir_for_ctfe(did);
                         cx.body(&mut f, &path, "static", did, body, "");
+                        let promoted = tcx.promoted_mir(did);
+                        for (pi, pb) in promoted.iter_enumerated() {
+                            let ppath = format!("{}::{{promoted#{}}}", path, pi.index());
+                            let pextra = format!(",\"promoted_of\":{},\"promoted_index\":{}", q(&path), pi.index());
+                            cx.body(&mut f, &ppath, "promoted", did, pb, &pextra);
+                        }
                     }
                     continue;
                 }
